@@ -500,7 +500,8 @@ def binop(ctx, op, a, b):
     if name == "Add" and isinstance(a, tuple) and isinstance(b, tuple):
         return a + b
     if name == "Mod" and is_strlike(a):
-        raise Unsupported("%-formatting with symbolic operands")
+        ctx.note("stub: %-formatting with symbolic operands yields an arbitrary string")
+        return SStr(z3.String(ctx.fresh_name("formatted")))
     if is_numeric(a) and is_numeric(b):
         return num_binop(ctx, name, a, b)
     raise Unsupported("binary %s on %s and %s" % (name, pytype_of(a).__name__,
